@@ -27,13 +27,16 @@ VARS = ["$x", "$y", "obj:@s", "$z.w", "o2:name"]           # variable switched o
 MACRO_MIN_FORMAT = 16                                      # Minecraft fact: function macros exist from pack format 16
 
 HEADER = ("From Coq Require Import ZArith String List.\n"
-          "From JMCV Require Import MC.Syntax Model.Names Model.Switch Run.C06.\n"
+          "From JMCV Require Import MC.Syntax Model.Names Model.Switch Model.SwitchRet Run.C06.\n"
           "Import ListNotations.\nOpen Scope string_scope.\n")
 
 
 # ------------------------------------------------------------------ programs
 # stmt := ("say", text) | ("break",) | ("set", var, k) | ("call", fname)
 #       | ("switch", var, [(label|"default", spelling, [stmt])]) | ("hard", var, begin, count, [(pre, post)], [stmt] tail)
+#       | ("ret", "val", k) | ("ret", "fail", None) | ("ret", "say", text)        `return k;` `return fail;` `return run say "text";`
+#       | ("if", var, rng, [stmt])      rng = ("eq", k) | ("ge", a) | ("le", b) | ("in", a, b)     `if (var == k) { … }` …
+#       | ("while", var, k, [stmt])     `while (var < k) { var += 1; … }`   (var is a loop counter: names starting with "$i")
 # A case may carry "more": {fname: [stmt]} further user functions, "order": their source order (names, incl. "f")
 
 def cert_text(c):
@@ -67,6 +70,12 @@ def render(stmts, hdepth=0) -> str:
             out.append(f"{s[1]} = {s[2]};")
         elif s[0] == "call":
             out.append(f"{s[1]}();")
+        elif s[0] == "ret":
+            out.append({"val": f"return {s[2]};", "fail": "return fail;", "say": f'return run say "{s[2]}";'}[s[1]])
+        elif s[0] == "if":
+            out.append(f"if ({cond_text(s[1], s[2])}) {{ {render(s[3], hdepth)} }}")
+        elif s[0] == "while":
+            out.append(f"while ({s[1]} < {s[2]}) {{ {s[1]} += 1; {render(s[3], hdepth)} }}")
         elif s[0] == "hard":
             prm = HARD_PARAMS[hdepth]
             body = " ".join(f'say "{pre}${prm}{post}";' for pre, post in s[4])
@@ -75,6 +84,50 @@ def render(stmts, hdepth=0) -> str:
         else:
             raise ValueError(s)
     return " ".join(out)
+
+
+def cond_text(var, rng):
+    if rng[0] == "eq":
+        return f"{var} == {rng[1]}"
+    if rng[0] == "ge":
+        return f"{var} >= {rng[1]}"
+    if rng[0] == "le":
+        return f"{var} <= {rng[1]}"
+    return f"{var} matches {rng[1]}..{rng[2]}"
+
+
+def cond_holds(v, rng):
+    """`execute if score` on an unset score is false"""
+    if v is None:
+        return False
+    if rng[0] == "eq":
+        return v == rng[1]
+    if rng[0] == "ge":
+        return v >= rng[1]
+    if rng[0] == "le":
+        return v <= rng[1]
+    return rng[1] <= v <= rng[2]
+
+
+def coq_range(rng):
+    if rng[0] == "eq":
+        return f"(Exact {coq_z(rng[1])})"
+    if rng[0] == "ge":
+        return f"(From {coq_z(rng[1])})"
+    if rng[0] == "le":
+        return f"(To {coq_z(rng[1])})"
+    return f"(Between {coq_z(rng[1])} {coq_z(rng[2])})"
+
+
+def ret_text(s):
+    """the command a `return` statement compiles to"""
+    return {"val": f"return {s[2]}", "fail": "return fail", "say": f"return run say {s[2]}"}[s[1]]
+
+
+def inlined_if(body):
+    """add_arrow_function: a body that compiles to ONE command without a line break stands behind `execute if … run`;
+    every statement here compiles to one command except switch / Hardcode.switch (several lines)"""
+    return len(body) == 1 and body[0][0] not in ("switch", "hard", "break")
 
 
 def functions_of_case(case):
@@ -96,23 +149,31 @@ def coq_stmts(stmts, cert) -> str:
     out = []
     for s in stmts:
         if s[0] == "say":
-            out.append(f"SSay {coq_str(s[1])}")
+            out.append(f"RSay {coq_str(s[1])}")
         elif s[0] == "break":
-            out.append("SBreak")
+            out.append("RBreak")
         elif s[0] == "switch":
             ents = []
             for lab, _spell, body in s[2]:
                 l = "LDefault" if lab == "default" else f"LNum {coq_z(lab)}"
                 ents.append(f"({l}, {coq_stmts(body, cert)})")
-            out.append(f"SSwitch {coq_score(score_of(s[1], cert))} {coq_list(ents)}")
+            out.append(f"RSwitch {coq_score(score_of(s[1], cert))} {coq_list(ents)}")
         elif s[0] == "set":
-            out.append(f"SSet {coq_score(score_of(s[1], cert))} {coq_z(s[2])}")
+            out.append(f"RSet {coq_score(score_of(s[1], cert))} {coq_z(s[2])}")
         elif s[0] == "call":
-            out.append(f"SCall {coq_str(s[1])}")
+            out.append(f"RCall {coq_str(s[1])}")
+        elif s[0] == "ret":
+            out.append(f"RRet {coq_str(ret_text(s)[len('return '):])}")
+        elif s[0] == "if":
+            out.append(f"RIf {coq_score(score_of(s[1], cert))} {coq_range(s[2])} {coq_stmts(s[3], cert)}")
+        elif s[0] == "while":
+            out.append(f"RWhile {coq_score(score_of(s[1], cert))} {coq_z(s[2])} {coq_stmts(s[3], cert)}")
         elif s[0] == "hard":
             tm = coq_list(f"({coq_str(a)}, {coq_str(b)})" for a, b in s[4])
             tail = coq_stmts(s[5] if len(s) > 5 else [], cert)
-            out.append(f"SHard {coq_score(score_of(s[1], cert))} {coq_z(s[2])} {coq_z(s[3])} {tm} {tail}")
+            out.append(f"RHard {coq_score(score_of(s[1], cert))} {coq_z(s[2])} {coq_z(s[3])} {tm} {tail}")
+        else:
+            raise ValueError(s)
     return coq_list(out)
 
 
@@ -131,10 +192,19 @@ class Ambiguous(Exception):
     pass
 
 
-def interpret(stmts, env, trace, funcs=None, depth=0):
+def interpret(stmts, env, trace, funcs=None, depth=0, bst=False):
     """What the program means: say -> trace; switch -> the body of the case whose label equals the value
     at the moment the switch is reached (default body when there is none and a default is declared;
-    otherwise nothing); `$x = k` changes env; `g()` runs the body of g."""
+    otherwise nothing); `$x = k` changes env; `g()` runs the body of g.
+    `return` ends the innermost block that JMC compiles to a function of its own — a case / default body, an
+    instance of a Hardcode.switch body, a loop body (the loop ends: the re-test is skipped), an `if` body of more
+    than one command, a user function; an `if` body of one command is inlined (`execute if … run <command>`), so a
+    return in it ends the block around the `if`.  The switch statement itself always goes on with what follows it.
+    bst: the binary-search lowering copies the switched score into __switch__N with `scoreboard players operation`,
+    which CREATES an unset source score (= 0); the macro lowering reads it with `scoreboard players get` and leaves it
+    unset.  Both dispatch on 0; the difference is visible to a later `if` on that score (C06_bst_exact states the
+    copy's effect, do_op; it is not a matter of which case runs).
+    -> True when a return is propagating out of `stmts`."""
     for s in stmts:
         if s[0] == "say":
             trace.append(s[1])
@@ -142,11 +212,31 @@ def interpret(stmts, env, trace, funcs=None, depth=0):
             pass
         elif s[0] == "set":
             env[s[1]] = s[2]
+        elif s[0] == "ret":
+            if s[1] == "say":
+                trace.append(s[2])
+            return True
+        elif s[0] == "if":
+            if cond_holds(env.get(s[1]), s[2]):
+                r = interpret(s[3], env, trace, funcs, depth, bst)
+                if r and inlined_if(s[3]):
+                    return True
+        elif s[0] == "while":
+            n = 0
+            while cond_holds(env.get(s[1]), ("le", s[2] - 1)):
+                n += 1
+                if n > 50:
+                    raise Ambiguous()
+                env[s[1]] = env[s[1]] + 1
+                if interpret(s[3], env, trace, funcs, depth, bst):
+                    break
         elif s[0] == "call":
             if depth > 20 or not funcs or s[1] not in funcs:
                 raise Ambiguous()
-            interpret(funcs[s[1]], env, trace, funcs, depth + 1)
+            interpret(funcs[s[1]], env, trace, funcs, depth + 1, bst)
         elif s[0] == "switch":
+            if bst and env.get(s[1]) is None:
+                env[s[1]] = 0
             v = env.get(s[1])
             v = 0 if v is None else v                   # an unset score reads as 0
             hits = [b for lab, _sp, b in s[2] if lab == v]
@@ -154,23 +244,26 @@ def interpret(stmts, env, trace, funcs=None, depth=0):
             if len(hits) > 1 or len(dfl) > 1:
                 raise Ambiguous()
             if hits:
-                interpret(hits[0], env, trace, funcs, depth)
+                interpret(hits[0], env, trace, funcs, depth, bst)
             elif dfl:
-                interpret(dfl[0], env, trace, funcs, depth)
+                interpret(dfl[0], env, trace, funcs, depth, bst)
         elif s[0] == "hard":
+            if bst and env.get(s[1]) is None:
+                env[s[1]] = 0
             v = env.get(s[1])
             v = 0 if v is None else v
             if s[2] <= v <= s[3]:
                 for pre, post in s[4]:
                     trace.append(f"{pre}{v}{post}")
                 if len(s) > 5:
-                    interpret(s[5], env, trace, funcs, depth)
+                    interpret(s[5], env, trace, funcs, depth, bst)
+    return False
 
 
 def meaning(case, env):
     """trace of one call of f from env (env is not modified)"""
     trace = []
-    interpret(case["prog"], dict(env), trace, dict(functions_of_case(case)))
+    interpret(case["prog"], dict(env), trace, dict(functions_of_case(case)), 0, not is_macro(case["pf"], case["fb"]))
     return trace
 
 
@@ -193,6 +286,12 @@ def expect_compiles(stmts, macro):
                     return False
                 if v is None:
                     verdict = None
+        elif s[0] in ("if", "while"):
+            v = expect_compiles(s[3], macro)
+            if v is False:
+                return False
+            if v is None:
+                verdict = None
         elif s[0] == "hard":
             if s[2] > s[3] and not macro:
                 verdict = None
@@ -221,6 +320,12 @@ def switch_vars(stmts, acc=None):
                 switch_vars(s[5], acc)
         elif s[0] == "set":
             acc.setdefault(s[1], set()).add(s[2])
+        elif s[0] == "if":
+            acc.setdefault(s[1], set()).update(s[2][1:])
+            switch_vars(s[3], acc)
+        elif s[0] == "while":
+            acc.setdefault(s[1], set()).add(s[2])
+            switch_vars(s[3], acc)
     return acc
 
 
@@ -251,12 +356,22 @@ def value_grid(labels):
     return [None] + sorted(vals)
 
 
+def is_loop_var(n):
+    return n.startswith("$i")
+
+
+def loop_grid(bounds):
+    """a loop counter only starts near its bound (the loop runs `bound - start` times)"""
+    lo, hi = min(bounds), max(bounds)
+    return [None] + list(range(lo - 3, hi + 2))
+
+
 def envs_for(case, rng, cap=90):
     vs = case_vars(case)
     names = list(vs)
     if not names:
         return [{}]
-    grids = {n: value_grid(vs[n]) for n in names}
+    grids = {n: (loop_grid(vs[n]) if is_loop_var(n) else value_grid(vs[n])) for n in names}
     envs = []
     # every value of every variable, the other variables drawn at random from their grids
     for n in names:
@@ -270,8 +385,46 @@ def envs_for(case, rng, cap=90):
     return envs
 
 
+class _Ret(Exception):
+    pass
+
+
+class RVM(VM):
+    """mcvm + Minecraft's `return`: `return <value>` / `return fail` / `return run <command>` (also behind
+    `execute … run`) end the function they are written in — the rest of its lines is skipped — and nothing else;
+    + `function <f> {k:v,…}` (macro arguments given literally; `function <f> with {…}` is not Minecraft syntax)"""
+
+    def run_func(self, name, margs=None):
+        d = self.depth
+        try:
+            return VM.run_func(self, name, margs)
+        except _Ret:
+            self.depth = d
+            return True
+
+    def cmd(self, line):
+        import re
+        if line == "return" or line.startswith("return "):
+            self.steps += 1
+            rest = line[7:]
+            if rest.startswith("run "):
+                self.cmd(rest[4:])
+            elif rest != "fail" and not re.fullmatch(r"-?\d+", rest):
+                raise Invalid(line)
+            raise _Ret()
+        m = re.fullmatch(r"function (\S+) \{(.*)\}", line)
+        if m:
+            self.steps += 1
+            margs = {}
+            for kv in filter(None, m.group(2).split(",")):
+                k, v = kv.split(":", 1)
+                margs[k.strip()] = v.strip()
+            return self.run_func(m.group(1), margs), 0
+        return VM.cmd(self, line)
+
+
 def vm_trace(funcs, ns, fname, env, cert, pf):
-    vm = VM(funcs, ns=ns, max_steps=20000)
+    vm = RVM(funcs, ns=ns, max_steps=20000)
     for var, v in env.items():
         if v is not None:
             vm.s[score_of(var, cert)] = v
@@ -295,7 +448,7 @@ def run_twice_failure(case, funcs, rng, cert):
             exp = meaning(case, e1) + meaning(case, e2)
         except Ambiguous:
             return None
-        vm = VM(funcs, ns=case["ns"], max_steps=40000)
+        vm = RVM(funcs, ns=case["ns"], max_steps=40000)
         try:
             for e in (e1, e2):
                 for var, v in e.items():
@@ -573,6 +726,155 @@ def gen_cases(rng, tier):
             add([first, ("hard", "$state", 1, 3, [("second ", "")]), ("say", "after")], pf, fb, "H-same-score-siblings", cert=1)
             add([("call", "g"), sw("$state", 1, 3, "second"), ("say", "after")], pf, fb, "H-same-score-siblings",
                 more={"g": [first]}, order=[FNAME, "g"])
+    # (I) strengthening round 4: `return` inside case bodies.  A case function of a macro switch WITH default ends in the
+    #     line `scoreboard players set __found_case__ <VAR> 1`; a return in the body must not skip it (otherwise `default`
+    #     runs as well): the body gets a function of its own (DataPack.isolate_return).  Every spelling of a return
+    #     (value / fail / run <command> / behind an inlined `if` / inside a block `if`, a loop, a nested switch, a called
+    #     function), at every position of the body, in every case (and in `default`), both lowerings, with and without
+    #     default, contiguous and sparse labels, switch and Hardcode.switch.
+    def ret_forms(tag):
+        """name -> the statements that stand for `the return`; forms whose return leaves the case body come first"""
+        inner_sw = lambda body1, dflt=None: ("switch", "$z", [(1, "1", body1), (2, "2", says(f"{tag} z2"))] +
+                                             ([("default", "default", dflt)] if dflt else []))
+        return {
+            # the return leaves the case body
+            "val": [("ret", "val", 1)],
+            "val0": [("ret", "val", 0)],
+            "neg": [("ret", "val", -7)],
+            "fail": [("ret", "fail", None)],
+            "run": [("ret", "say", f"{tag} ret-say")],
+            "if-eq": [("if", "$y", ("eq", 1), [("ret", "val", 1)])],
+            "if-range": [("if", "$y", ("in", 1, 2), [("ret", "fail", None)])],
+            "if-ge": [("if", "obj2:@s", ("ge", 1), [("ret", "say", f"{tag} ret-say")])],
+            "if-if": [("if", "$y", ("le", 1), [("if", "$z", ("eq", 1), [("ret", "val", 5)])])],
+            # the return leaves an inner block only (no word `return` in the case body)
+            "if-block": [("if", "$y", ("eq", 1), [("say", f"{tag} in-if"), ("ret", "val", 1), ("say", f"{tag} dead")])],
+            "if-block-if": [("if", "$y", ("ge", 1), [("say", f"{tag} in-if"), ("if", "$z", ("eq", 1), [("ret", "val", 1)]),
+                                                     ("say", f"{tag} if-end")])],
+            "while": [("while", "$i", 2, [("say", f"{tag} loop"), ("if", "$y", ("eq", 1), [("ret", "val", 1)]),
+                                         ("say", f"{tag} loop-end")])],
+            "while-ret": [("while", "$i", 2, [("ret", "val", 3)])],
+            "nested-case": [inner_sw([("say", f"{tag} z1"), ("ret", "val", 1), ("say", f"{tag} dead")])],
+            "nested-default": [inner_sw(says(f"{tag} z1"), [("ret", "val", 2)])],
+            "nested-case-dflt": [inner_sw([("ret", "val", 1)], says(f"{tag} zd"))],
+            "call": [("call", "g")],
+            "hard": [("hard", "$z", 1, 2, [(f"{tag} h", "")], [("if", "$y", ("eq", 1), [("ret", "val", 1)]), ("say", f"{tag} h-end")])],
+        }
+
+    G_RET = {"g": [("say", "g pre"), ("if", "$y", ("eq", 1), [("ret", "val", 1)]), ("say", "g post")]}
+
+    def ret_body(tag, form_stmts, pos):
+        pre, post = ("say", f"{tag} pre"), ("say", f"{tag} post")
+        return {"first": form_stmts + [post], "middle": [pre] + form_stmts + [post], "last": [pre] + form_stmts,
+                "only": list(form_stmts), "break-after": [pre] + form_stmts + [("break",), post],
+                "twice": form_stmts + [post] + form_stmts}[pos]
+
+    def ret_switch(var, labels, where, form, pos, default_at, other_ret=None):
+        """switch over labels; the body of labels[where] (or of default when where == "default") holds the return"""
+        ents = []
+        for i, l in enumerate(labels):
+            tag = f"c{l}"
+            if where == i or where == "all":
+                body = ret_body(tag, ret_forms(tag)[form], pos)
+            elif other_ret is not None and i == other_ret:
+                body = ret_body(tag, ret_forms(tag)["val"], "last")
+            else:
+                body = says(tag) + ([("break",)] if i % 2 else [])
+            ents.append((l, str(l), body))
+        if default_at is not None:
+            dbody = ret_body("dflt", ret_forms("dflt")[form], pos) if where == "default" else says("dflt")
+            ents.insert(default_at if default_at >= 1 else len(ents), ("default", "default", dbody))
+        return ("switch", var, ents)
+
+    FORMS = list(ret_forms("t"))
+    POSITIONS = ["first", "middle", "last", "only", "break-after", "twice"]
+    ri = 0
+    for form in FORMS:
+        more = G_RET if form == "call" else None
+        order = ([FNAME, "g"], ["g", FNAME])
+        for pos in POSITIONS:
+            for (pf, fb), labels, default_at in (((48, False), [1, 2, 3], 0), ((48, False), [4, 9, -2], 1),
+                                                 ((48, False), [1, 2, 3], None), ((16, False), [7], 0),
+                                                 ((15, False), [1, 2, 3], None), ((48, True), [0, 1], None),
+                                                 ((15, False), [5], None)):
+                ri += 1
+                heavy = pos in ("break-after", "twice") or (pf, fb) in ((16, False), (15, False), (48, True))
+                if tier == "quick" and heavy and ri % 3:
+                    continue
+                where = ri % len(labels)
+                add([ret_switch("$x", labels, where, form, pos, default_at), ("say", "after")], pf, fb,
+                    f"I-return-{form}", cert=ri % 2, ns=(ri // 2) % 2, more=more, order=order[ri % 2] if more else None)
+        # in `default`, in every case at once, in two cases
+        for (pf, fb), dflt in (((48, False), True), ((16, False), True), ((48, False), False), ((15, False), False)):
+            ri += 1
+            if dflt:
+                add([ret_switch("$x", [1, 2], "default", form, "middle", 1), ("say", "after")], pf, fb,
+                    f"I-return-in-default-{form}", cert=ri % 2, more=more)
+            add([ret_switch("$x", [1, 2, 3], "all", form, "middle", 0 if dflt else None), ("say", "after")], pf, fb,
+                f"I-return-all-cases-{form}", ns=ri % 2, more=more)
+            add([ret_switch("obj:@s", [3, 4, 5], 0, form, "last", 0 if dflt else None, other_ret=2)], pf, fb,
+                f"I-return-two-cases-{form}", cert=1, more=more)
+    # Hardcode.switch: the body of every index returns (tail), both lowerings; inside a case of a switch with default
+    for form in ("val", "fail", "run", "if-eq", "if-block", "while", "nested-case-dflt"):
+        for pf, fb in CFG_MAIN:
+            tail = ret_body("h", ret_forms("h")[form], "middle")
+            add([("hard", "$x", 1, 3, [("idx ", "")], tail), ("say", "after")], pf, fb, f"I-return-hardcode-{form}")
+            if is_macro(pf, fb):
+                outer = ("switch", "$y", [(1, "1", [("hard", "$x", 1, 2, [("idx ", "")], tail), ("say", "y1 end")]),
+                                          ("default", "default", says("ydflt"))])
+                add([outer, ("say", "after")], pf, fb, f"I-return-hardcode-in-case-{form}", cert=1)
+    # two levels of switches with default: the inner case returns (inner body isolated, outer body not), the outer body
+    # returns after the inner switch (outer body isolated, holding the inner dispatcher), both
+    for inner_ret in (False, True):
+        for outer_ret in (False, True):
+            if not (inner_ret or outer_ret):
+                continue
+            inner = ("switch", "$y", [(1, "1", [("say", "in1")] + ([("ret", "val", 1)] if inner_ret else []) + [("say", "in1 end")]),
+                                      (2, "2", says("in2")), ("default", "default", says("in dflt"))])
+            obody = [("say", "out1"), inner] + ([("if", "$z", ("eq", 1), [("ret", "fail", None)])] if outer_ret else []) + [("say", "out1 end")]
+            outer = ("switch", "$x", [(1, "1", obody), (2, "2", says("out2")), ("default", "default", says("out dflt"))])
+            for pf in (48, 16):
+                add([outer, ("say", "after")], pf, False, "I-return-two-levels")
+            # the same statement twice in one function: the counts of the isolated bodies go on
+            add([outer, ("say", "between"), outer], 48, False, "I-return-two-levels", cert=1, ns=1)
+    # random structured case bodies with returns / ifs / loops at random depth
+    def rand_ret_body(depth, tag, bst):
+        k = rng.choice([1, 2, 2, 3, 4])
+        body = []
+        for j in range(k):
+            r = rng.random()
+            t = f"{tag}s{j}"
+            if r < 0.22:
+                body.append(rng.choice([("ret", "val", rng.choice([0, 1, -1, 9])), ("ret", "fail", None), ("ret", "say", t + " ret")]))
+            elif r < 0.42 and depth < 3:
+                var = rng.choice(["$y", "$z", "obj2:@s"])
+                rg = rng.choice([("eq", 1), ("ge", 1), ("le", 0), ("in", 0, 1)])
+                body.append(("if", var, rg, rand_ret_body(depth + 1, t, bst)))
+            elif r < 0.5 and depth < 2:
+                body.append(("while", "$i" if depth == 0 else "$i2", rng.choice([1, 2]), rand_ret_body(depth + 1, t, bst)))
+            elif r < 0.62 and depth < 2:
+                n = rng.choice([1, 2, 3])
+                labels = list(range(1, n + 1)) if bst else rng.sample(range(-2, 5), n)
+                ents = [(l, str(l), rand_ret_body(depth + 1, f"{t}c{l}", bst)) for l in labels]
+                if not bst and rng.random() < 0.7:
+                    ents.insert(rng.randint(1, len(ents)), ("default", "default", rand_ret_body(depth + 1, t + "d", bst)))
+                body.append(("switch", "$z" if depth == 0 else "$w", ents))
+            elif r < 0.68:
+                body.append(("break",)) if depth == 0 else body.append(("say", t))
+            else:
+                body.append(("say", t))
+        return body
+
+    nrr = 50 if tier == "quick" else 400
+    for i in range(nrr):
+        pf, fb = rng.choice([(48, False), (48, False), (16, False), (15, False), (48, True)])
+        bst = not is_macro(pf, fb)
+        n = rng.choice([1, 2, 3, 4])
+        labels = list(range(1, n + 1)) if bst else rng.sample(range(-3, 8), n)
+        ents = [(l, str(l), rand_ret_body(0, f"c{l}", bst)) for l in labels]
+        if not bst and rng.random() < 0.8:
+            ents.insert(rng.randint(1, len(ents)), ("default", "default", rand_ret_body(0, "cd", bst)))
+        add([("switch", "$x", ents), ("say", "after")], pf, fb, "I-return-random", cert=i % 2, ns=(i // 2) % 2)
     if tier == "thorough":
         for n in (127, 128, 129, 255, 257):
             for pf, fb in CFG_MAIN:
@@ -584,7 +886,7 @@ def gen_cases(rng, tier):
 
 def job_of(case):
     cert = CERTS[case["cert"]]
-    src = render_case(case)
+    src = case.get("src") or render_case(case)
     job = dict(src=src, cert=cert_text(cert), namespace=case["ns"])
     if case["pf"] != -1:
         job["pack_format"] = case["pf"]
@@ -651,6 +953,10 @@ def shrink_candidates(prog):
             elif s[0] == "hard" and len(s) > 5 and s[5]:
                 for nb in stmts_variants(s[5]):
                     yield stmts[:i] + [s[:5] + (nb,)] + stmts[i + 1:]
+            elif s[0] in ("if", "while"):
+                for nb in stmts_variants(s[3]):
+                    if nb:
+                        yield stmts[:i] + [s[:3] + (nb,)] + stmts[i + 1:]
     for v in stmts_variants(prog):
         if v and v != prog:
             yield v
@@ -722,6 +1028,34 @@ def replay_obj(case, fail, kind="semantic-failure"):
                     "failure.env (None = unset); expected = source-level meaning of the program")
 
 
+# ------------------------------------------------------------------ `switch … with {…}` (outside the Coq model)
+
+def with_cases():
+    """`switch (x) { … } with {v: 5};` — the case functions are macro functions (`$`-lines see $(v)); an isolated
+    case body must be called with the same arguments.  `src` is the program, `prog` an equivalent program without
+    macro lines (the oracle): `$return $(v);` = `return 5;`, `$say "v=$(v)";` = `say "v=5";`."""
+    out = []
+    bodies = {
+        "mret": ('say "a"; $return $(v); say "dead";', [("say", "a"), ("ret", "val", 5), ("say", "dead")]),
+        "msay-ret": ('$say "v=$(v)"; return 1;', [("say", "v=5"), ("ret", "val", 1)]),
+        "msay-if-ret": ('if ($y == 1) { return fail; } $say "v=$(v)";',
+                        [("if", "$y", ("eq", 1), [("ret", "fail", None)]), ("say", "v=5")]),
+        "mret-run": ('$return run say "v=$(v)";', [("ret", "say", "v=5")]),
+    }
+    i = 0
+    for name, (btxt, bprog) in bodies.items():
+        for dflt in (True, False):
+            for pf in (48, 61):                     # (`with {…}` needs pack format 48)
+                i += 1
+                d_src = ' default: $say "d$(v)";' if dflt else ""
+                src = (f'function f() {{ switch($x) {{ case 1: {btxt} case 2: $say "two $(v)";{d_src} }} with {{v: 5}}; '
+                       f'say "after"; }}')
+                ents = [(1, "1", bprog), (2, "2", [("say", "two 5")])] + ([("default", "default", [("say", "d5")])] if dflt else [])
+                out.append(dict(prog=[("switch", "$x", ents), ("say", "after")], src=src, pf=pf, fb=False,
+                                stream=f"J-with-{name}", cert=i % 2, ns=NAMESPACES[i % 2], dup=False, more=None, order=None))
+    return out
+
+
 # ------------------------------------------------------------------ the re-entrancy probe (documented limit of the bst strategy)
 
 REENTRANT_SRC = ('function f() { switch($x) { case 1: $x = 2; f(); break; case 2: say "two"; break; } }')
@@ -737,7 +1071,7 @@ def reentrancy_probe():
             out[str(pf)] = "compile error " + r["exc"]
             continue
         funcs = real_functions(r["files"], "TEST", CERTS[0])
-        vm = VM(funcs, ns="TEST", max_steps=5000)
+        vm = RVM(funcs, ns="TEST", max_steps=5000)
         vm.s[("$x", "__variable__")] = 1
         try:
             vm.run_func("TEST:f")
@@ -752,7 +1086,7 @@ def reentrancy_probe():
 def main(tier: str) -> int:
     ck = Check(PROP, tier)
     ck.cov["trusted_base"] = COMMON_TRUSTED + [
-        "Model/Switch.v is a hand-written port of switch()/parse_switch()/__parse_switch_binary() (_flow_control.py), "
+        "Model/Switch.v + Model/SwitchRet.v are a hand-written port of switch()/parse_switch()/__parse_switch_binary() (_flow_control.py), "
         "HardcodeSwitch.call (execute_excluded.py), PackVersion.__ge__/require (pack_version.py) and of the count/name "
         "allocation of datapack.py; tied to /repo by exact text equality of EVERY emitted function (and of the exception "
         "class) on the generated programs below; the macro threshold is regenerated from pack_version.py",
@@ -762,8 +1096,18 @@ def main(tier: str) -> int:
         "C06_bst_exact assumes case bodies leave __switch__N unchanged (a body that re-enters the same switch by recursion "
         "does not; see reentrancy_probe in the evidence)",
         "statements of case bodies: say, break, `$x = k`, `g();` (a call of another user function of the pack), nested switch / "
-        "Hardcode.switch (also inside a Hardcode.switch body, which is compiled once per index); user functions are compiled in source "
-        "order with the counters threaded through (Model.Switch.compile_functions)",
+        "Hardcode.switch (also inside a Hardcode.switch body, which is compiled once per index), and since round 4 `return k|fail|run say …;`, "
+        "`if (<score test>) { … }` (inlined or a function of group if_else), `while ($i < k) { $i += 1; … }`; user functions are compiled in "
+        "source order with the counters threaded through (Model.SwitchRet.compile_functions_r)",
+        "Minecraft's `return` (Model.SwitchRet.rexec, a conservative extension of MC.Sem proved equal to it on return-free packs): a command "
+        "whose first word is `return` / `$return`, alone or behind `execute … run`, ends the function it is written in; the effect of the command "
+        "behind `return run` on scores is not modelled (COther); the textual test of DataPack.isolate_return (the WORD return in a line) is part "
+        "of the model and proved sound for this semantics (C06_no_word_no_return)",
+        "`switch … with <arguments>` is outside the Coq model: checked by direct probes (programs with macro lines in case / default bodies run "
+        "in the VM against an equivalent program without macro lines)",
+        "an unset switched score is created (= 0) by the binary-search lowering (the copy `scoreboard players operation __switch__N = x`, "
+        "stated by C06_bst_exact through do_op) and left unset by the macro lowering (`scoreboard players get`); both dispatch on 0; not a matter "
+        "of which case runs, the interpreter of the search follows the lowering in force",
         "mcvm.py (untrusted Python VM) and the source-level interpreter in c06.py are used only to search for failing inputs",
     ]
     ck.proof(extra_targets=["Run/C06.vo"])
@@ -800,6 +1144,18 @@ def main(tier: str) -> int:
         f = case_failure(c, ck.rng)
         if f:
             sem_fail[i] = f
+
+    wcases = with_cases()
+    compile_cases(wcases)
+    with_fail = []
+    for c in wcases:
+        n_runs += 1 if c["res"]["ok"] else 0
+        f = case_failure(c, ck.rng) if c["res"]["ok"] else dict(kind="valid-program-rejected", exc=c["res"]["exc"],
+                                                                msg=c["res"]["msg"][:300])
+        if f:
+            with_fail.append((c, f))
+    for c, f in with_fail[:2]:
+        ck.violation(replay_obj(c, f))
 
     reported = set()
     for i, f in sem_fail.items():
@@ -843,9 +1199,12 @@ def main(tier: str) -> int:
              "distinct = distinct (program, pack_format, #forcebst, jmc.txt names, namespace); every case reaches parse_switch or one of the "
              "label-rule rejections, so all are non-trivial.  Stream H (round 2): two dispatches on the SAME score, the inner one reached from a "
              "case body of the outer one (inline / through a called function defined before or after / Hardcode.switch on either side / three "
-             "levels / siblings), the body changing the score first",
+             "levels / siblings), the body changing the score first.  Stream I (round 4): `return` in case bodies — every spelling (value / fail / "
+             "run <command> / behind an inlined if / inside a block if, a loop, a nested switch with or without default, a called function, a "
+             "Hardcode.switch body) x every position in the body x both lowerings x with / without default x contiguous / sparse labels, in "
+             "`default`, in all cases, two levels of switches with default, random bodies.  Stream J: `switch … with {…}` probes",
         samples=[dict(src=job_of(c)["src"], pack_format=c["pf"], forcebst=c["fb"]) for c in (cases[0], cases[40], cases[-1])],
-        programs=len(cases), disagreements_checked=len(bad), semantic_programs=n_runs,
+        programs=len(cases), disagreements_checked=len(bad), semantic_programs=n_runs, with_probes=len(wcases),
         branch_histogram=hist, strategy_histogram=strat, regenerated_VANILLA_MACRO=thr,
         functions_compared=sum(len(c["funcs"]) for c in cases), reentrancy_probe=probe,
         correspondence="text of every emitted function (user function and all private functions) equals the model's, "
@@ -900,13 +1259,13 @@ def replay(path) -> int:
     funcs = real_functions(r["files"], obj["namespace"], cert)
     env = fail.get("env", {})
     rcase = dict(prog=tuplify(obj["program"]), more={n: tuplify(b) for n, b in (obj.get("more") or {}).items()},
-                 order=obj.get("order"))
+                 order=obj.get("order"), pf=obj["pack_format"], fb=obj["forcebst"])
     exp = meaning(rcase, env)
     try:
         if "env_second_call" in fail:
             e2 = fail["env_second_call"]
             exp = exp + meaning(rcase, e2)
-            vm = VM(funcs, ns=obj["namespace"], max_steps=40000)
+            vm = RVM(funcs, ns=obj["namespace"], max_steps=40000)
             for e in (env, e2):
                 for var, v in e.items():
                     k = score_of(var, cert)
@@ -934,6 +1293,10 @@ def tuplify(stmts):
             out.append(("switch", s[1], [(l, sp, tuplify(b)) for l, sp, b in s[2]]))
         elif s[0] == "hard":
             out.append(("hard", s[1], s[2], s[3], [tuple(p) for p in s[4]]) + ((tuplify(s[5]),) if len(s) > 5 else ()))
+        elif s[0] == "if":
+            out.append(("if", s[1], tuple(s[2]), tuplify(s[3])))
+        elif s[0] == "while":
+            out.append(("while", s[1], s[2], tuplify(s[3])))
         else:
             out.append(tuple(s))
     return out
